@@ -17,39 +17,26 @@ pub open spec fn dec_range(s: Seq<u8>) -> Option<(Range<u32>, nat)> {
     }
 }
 
-/// `n` ranges one after the other
-pub open spec fn dec_range_list(s: Seq<u8>, n: nat) -> Option<(Seq<Ent<()>>, nat)>
-    decreases n,
-{
-    if n == 0 {
-        Some((Seq::<Ent<()>>::empty(), 0nat))
-    } else {
-        match dec_range(s) {
-            None => None,
-            Some((r, k)) => match dec_range_list(s.skip(k as int), (n - 1) as nat) {
-                None => None,
-                Some((rs, k2)) => Some((seq![(r, ())] + rs, k + k2)),
-            },
-        }
+/// a range as an entry of an `IdRanges<()>` (the attached value is `()`)
+pub open spec fn dec_range_ent(s: Seq<u8>) -> Option<(Ent<()>, nat)> {
+    match dec_range(s) {
+        None => None,
+        Some((r, k)) => Some(((r, ()), k)),
     }
+}
+
+pub open spec fn range_item() -> spec_fn(Seq<u8>) -> Option<(Ent<()>, nat)> {
+    |s: Seq<u8>| dec_range_ent(s)
 }
 
 /// `IdRanges<()>::decode`: a u32 count, then that many ranges
 pub open spec fn dec_ranges(s: Seq<u8>) -> Option<(Seq<Ent<()>>, nat)> {
     match dec_u32(s) {
         None => None,
-        Some((n, k)) => match dec_range_list(s.skip(k as int), n as nat) {
+        Some((n, k)) => match dec_list(range_item(), s.skip(k as int), n as nat) {
             None => None,
             Some((rs, k2)) => Some((rs, k + k2)),
         },
-    }
-}
-
-/// the result of a partial run: `acc` decoded from `k` bytes so far, `d` = what the remaining input decodes to
-pub open spec fn list_join<T>(acc: Seq<T>, k: nat, d: Option<(Seq<T>, nat)>) -> Option<(Seq<T>, nat)> {
-    match d {
-        None => None,
-        Some((rs, k2)) => Some((acc + rs, k + k2)),
     }
 }
 
@@ -67,49 +54,28 @@ pub proof fn lemma_dec_range_bounded(s: Seq<u8>)
     }
 }
 
-/// C10, memory: a decoded list of n ranges took at least 2n bytes; every range has start <= end (and NOTHING else holds)
-pub proof fn lemma_dec_range_list_bounded(s: Seq<u8>, n: nat)
+pub proof fn lemma_range_item_bounded()
     ensures
-        match dec_range_list(s, n) {
-            Some((rs, k)) => rs.len() == n && 2 * n <= k <= s.len() && (forall|i: int| 0 <= i < rs.len() ==> (#[trigger] rs[i]).0.start <= rs[i].0.end),
-            None => true,
-        },
-    decreases n,
+        item_bounded(range_item(), 2),
 {
-    if n > 0 {
+    assert forall|s: Seq<u8>| (#[trigger] range_item()(s)) is Some implies 2 <= range_item()(s)->Some_0.1 <= s.len() by {
         lemma_dec_range_bounded(s);
-        if dec_range(s) is Some {
-            let (r, k) = dec_range(s)->Some_0;
-            lemma_dec_range_list_bounded(s.skip(k as int), (n - 1) as nat);
-        }
     }
 }
 
-/// one more range at the end of the run
-pub proof fn lemma_dec_range_list_step(s1: Seq<u8>, n: nat, acc: Seq<Ent<()>>, k: nat, m: nat)
-    requires
-        k <= s1.len(),
-        m > 0,
-        dec_range_list(s1, n) == list_join(acc, k, dec_range_list(s1.skip(k as int), m)),
+/// C10 for `dec_ranges`: a decoded value with n ranges took at least 1 + 2n bytes
+pub proof fn lemma_dec_ranges_bounded(s: Seq<u8>)
     ensures
-        match dec_range(s1.skip(k as int)) {
-            None => dec_range_list(s1, n) is None,
-            Some((r, k2)) => k + k2 <= s1.len() && r.start <= r.end && k2 >= 2
-                && s1.skip(k as int).skip(k2 as int) == s1.skip((k + k2) as int)
-                && dec_range_list(s1, n) == list_join(acc.push((r, ())), k + k2, dec_range_list(s1.skip((k + k2) as int), (m - 1) as nat)),
+        match dec_ranges(s) {
+            Some((rs, k)) => 1 + 2 * rs.len() <= k <= s.len(),
+            None => true,
         },
 {
-    let s = s1.skip(k as int);
-    lemma_dec_range_bounded(s);
-    if dec_range(s) is Some {
-        let (r, k2) = dec_range(s)->Some_0;
-        assert(s.skip(k2 as int) =~= s1.skip((k + k2) as int));
-        match dec_range_list(s.skip(k2 as int), (m - 1) as nat) {
-            None => {},
-            Some((rs, k3)) => {
-                assert(acc + (seq![(r, ())] + rs) =~= acc.push((r, ())) + rs);
-            },
-        }
+    lemma_dec_u32_bounded(s);
+    if dec_u32(s) is Some {
+        let (n, k) = dec_u32(s)->Some_0;
+        lemma_range_item_bounded();
+        lemma_dec_list_bounded(range_item(), 2, s.skip(k as int), n as nat);
     }
 }
 
@@ -123,14 +89,15 @@ impl Decode for Range<u32> {
     @sig
         ensures
             res is Ok ==> res->Ok_0.start <= res->Ok_0.end,
+            res is Ok ==> final(decoder).rest().len() + 2 <= old(decoder).rest().len(),
             D::v1() ==> read_post(old(decoder).rest(), final(decoder).rest(), res, dec_range(old(decoder).rest())),
     @start
         let ghost s0 = decoder.rest();
     @after 1 `stmt:let clock`
         let ghost s1 = decoder.rest();
-    @after 1 `stmt:let len`
         proof {
-            lemma_suffix_step(s0, s1, decoder.rest());
+            lemma_suffix_trans(s0, s1);
+            lemma_suffix_len(s0, s1);
             if D::v1() {
                 let k = dec_u32(s0)->Some_0.1;
                 lemma_dec_u32_bounded(s0);
@@ -175,10 +142,12 @@ impl Decode for IdRanges<()> {
         proof {
             lemma_read_progress::<u32>(s0, s1, Ok::<u32, Error>(len));
             lemma_suffix_refl(s1);
+            lemma_dec_list_start(range_item(), s1, len as nat);
             assert(s1.skip(0) =~= s1);
         }
     @loop 1 iter=it
         invariant
+            s0 == old(decoder).rest(),
             decoder.wf(),
             suffix_of(s0, s1),
             suffix_of(s1, decoder.rest()),
@@ -188,8 +157,9 @@ impl Decode for IdRanges<()> {
             ranges@.len() == it.index@,
             decoder.rest().len() + 2 * it.index@ <= s1.len(),
             forall|i: int| 0 <= i < ranges@.len() ==> (#[trigger] ranges@[i]).0.start <= ranges@[i].0.end,
+            D::v1() ==> dec_u32(s0) is Some && dec_u32(s0)->Some_0.0 == len && s1 == s0.skip(dec_u32(s0)->Some_0.1 as int),
             D::v1() ==> kk <= s1.len() && decoder.rest() == s1.skip(kk as int)
-                && dec_range_list(s1, len as nat) == list_join(ranges@, kk, dec_range_list(decoder.rest(), (len - it.index@) as nat)),
+                && dec_list(range_item(), s1, len as nat) == list_join(ranges@, kk, dec_list(range_item(), decoder.rest(), (len - it.index@) as nat)),
     @before 1 `stmt:call push`
         let ghost sa = decoder.rest();
         let ghost ra = ranges@;
@@ -197,7 +167,8 @@ impl Decode for IdRanges<()> {
             lemma_suffix_step(s0, s1, sa);
             lemma_suffix_trans(s0, sa);
             if D::v1() {
-                lemma_dec_range_list_step(s1, len as nat, ra, kk, (len - ra.len()) as nat);
+                lemma_range_item_bounded();
+                lemma_dec_list_step(range_item(), 2, s1, len as nat, ra, kk, (len - ra.len()) as nat);
             }
         }
     @after 1 `stmt:call push`
@@ -205,6 +176,7 @@ impl Decode for IdRanges<()> {
             lemma_suffix_step(s1, sa, decoder.rest());
             if D::v1() {
                 kk = kk + dec_range(sa)->Some_0.1;
+                assert(dec_range_ent(sa) == range_item()(sa));
             }
         }
     @before 1 `stmt:call Ok`
@@ -215,6 +187,251 @@ impl Decode for IdRanges<()> {
                 lemma_dec_u32_bounded(s0);
                 assert(s0.skip(k as int).skip(kk as int) =~= s0.skip((k + kk) as int));
                 assert(ranges@ + Seq::<Ent<()>>::empty() =~= ranges@);
+            }
+        }
+    @*/
+}
+
+// ---------------------------------------------------------------------------------------------
+// IdSet
+// ---------------------------------------------------------------------------------------------
+/*@extract yrs/src/ids.rs | - | struct IdMapInner @*/
+
+/// per-client entry sequences
+pub open spec fn lift<T>(m: Map<ClientID, IdRanges<T>>) -> Map<ClientID, Seq<Ent<T>>> {
+    m.map_values(|r: IdRanges<T>| r@)
+}
+
+pub proof fn lemma_lift_insert<T>(m: Map<ClientID, IdRanges<T>>, k: ClientID, v: IdRanges<T>)
+    ensures lift(m.insert(k, v)) == lift(m).insert(k, v@),
+{
+    assert(lift(m.insert(k, v)) =~= lift(m).insert(k, v@));
+}
+
+impl<T: Merge> IdMapInner<T> {
+    /// the stored map (client -> IdRanges)
+    pub closed spec fn raw(&self) -> Map<ClientID, IdRanges<T>> {
+        self.0@
+    }
+
+    pub closed spec fn view(&self) -> Map<ClientID, Seq<Ent<T>>> {
+        lift(self.0@)
+    }
+
+    pub proof fn lemma_view(&self)
+        ensures self@ == lift(self.raw()),
+    {
+    }
+
+    /*@extract yrs/src/ids.rs | impl<T: Merge> IdMapInner<T> | fn clients_mut | label=inner_clients_mut
+    @ret r
+    @sig
+        ensures
+            r@ == old(self).raw(),
+            final(self).raw() == final(r)@,
+    @*/
+}
+
+impl<T: Merge> Default for IdMapInner<T> {
+    /*@extract yrs/src/ids.rs | impl<T: Merge> Default for IdMapInner<T> | fn default | label=inner_default
+    @ret r
+    @sig
+        ensures r@ == Map::<ClientID, Seq<Ent<T>>>::empty(),
+    @start
+        proof { assert(lift(Map::<ClientID, IdRanges<T>>::empty()) =~= Map::<ClientID, Seq<Ent<T>>>::empty()); }
+    @*/
+}
+
+/*@extract yrs/src/id_set.rs | - | type IdRange @*/
+
+/*@extract yrs/src/id_set.rs | - | struct IdSet @*/
+
+/// `#[derive(Default)]` of IdSet, written out (as in unit ids_lift)
+impl Default for IdSet {
+    fn default() -> (r: Self)
+        ensures r@ == Map::<ClientID, Seq<Ent<()>>>::empty(),
+    {
+        IdSet(IdMapInner::default())
+    }
+}
+
+impl IdSet {
+    pub open spec fn view(&self) -> Map<ClientID, Seq<Ent<()>>> {
+        self.0@
+    }
+
+    /*@extract yrs/src/id_set.rs | impl IdSet | fn new | label=idset_new
+    @ret r
+    @sig
+        ensures r@ == Map::<ClientID, Seq<Ent<()>>>::empty(),
+    @*/
+}
+
+/// one (client, ranges) item of an id set: the client as u64 var-int, then the client's ranges
+pub open spec fn dec_idset_item(s: Seq<u8>) -> Option<((ClientID, Seq<Ent<()>>), nat)> {
+    match dec_u64(s) {
+        None => None,
+        Some((client, k)) => match dec_ranges(s.skip(k as int)) {
+            None => None,
+            Some((rs, k2)) => Some(((ClientID(client), rs), k + k2)),
+        },
+    }
+}
+
+pub open spec fn idset_item() -> spec_fn(Seq<u8>) -> Option<((ClientID, Seq<Ent<()>>), nat)> {
+    |s: Seq<u8>| dec_idset_item(s)
+}
+
+/// the map built by inserting the items one after the other (a later item REPLACES an earlier one of the same client)
+pub open spec fn map_of<V>(items: Seq<(ClientID, V)>) -> Map<ClientID, V>
+    decreases items.len(),
+{
+    if items.len() == 0 {
+        Map::<ClientID, V>::empty()
+    } else {
+        map_of(items.drop_last()).insert(items.last().0, items.last().1)
+    }
+}
+
+/// `IdSet::decode`: a u32 client count, then that many items
+pub open spec fn dec_idset(s: Seq<u8>) -> Option<(Map<ClientID, Seq<Ent<()>>>, nat)> {
+    match dec_u32(s) {
+        None => None,
+        Some((n, k)) => match dec_list(idset_item(), s.skip(k as int), n as nat) {
+            None => None,
+            Some((items, k2)) => Some((map_of(items), k + k2)),
+        },
+    }
+}
+
+pub proof fn lemma_idset_item_bounded()
+    ensures
+        item_bounded(idset_item(), 2),
+{
+    assert forall|s: Seq<u8>| (#[trigger] idset_item()(s)) is Some implies 2 <= idset_item()(s)->Some_0.1 <= s.len() by {
+        lemma_dec_u64_bounded(s);
+        lemma_dec_ranges_bounded(s.skip(dec_u64(s)->Some_0.1 as int));
+    }
+}
+
+pub proof fn lemma_map_of_push<V>(items: Seq<(ClientID, V)>, c: ClientID, v: V)
+    ensures
+        map_of(items.push((c, v))) == map_of(items).insert(c, v),
+{
+    assert(items.push((c, v)).drop_last() =~= items);
+}
+
+/// the map has at most as many clients as there were items
+pub proof fn lemma_map_of_len<V>(items: Seq<(ClientID, V)>)
+    ensures
+        map_of(items).dom().finite(),
+        map_of(items).len() <= items.len(),
+    decreases items.len(),
+{
+    if items.len() > 0 {
+        lemma_map_of_len(items.drop_last());
+    }
+}
+
+/// every range stored for any client has start <= end -- ALL that `IdSet::decode` guarantees about the shape of its result
+pub open spec fn ranges_ordered(m: Map<ClientID, Seq<Ent<()>>>) -> bool {
+    forall|c: ClientID, i: int| #![trigger m[c][i]] m.contains_key(c) && 0 <= i < m[c].len() ==> m[c][i].0.start <= m[c][i].0.end
+}
+
+impl Decode for IdSet {
+    // (a) TOTAL + PROGRESS: every iteration consumes >= 2 bytes (invariant `decoder.rest().len() + 2 * i <= s1.len()`)
+    //     `ClientID::new(client)` on an unchecked u64                                                -- FINDING F-DC-2 (see unit.rs)
+    // (c) RESULT SHAPE: at most (consumed bytes) / 2 clients, every stored range has start <= end; NOT canonical, empty
+    //     per-client entries possible, a repeated client REPLACES the earlier entry
+    // (d) v1: equality with `dec_idset`
+    /*@extract yrs/src/id_set.rs | impl Decode for IdSet | fn decode | label=idset_decode
+    @ret res
+    @sig
+        ensures
+            res is Ok ==> res->Ok_0@.dom().finite() && 2 * res->Ok_0@.len() < old(decoder).rest().len() - final(decoder).rest().len(),
+            res is Ok ==> ranges_ordered(res->Ok_0@),
+            D::v1() ==> match dec_idset(old(decoder).rest()) {
+                Some((m, k)) => res is Ok && res->Ok_0@ == m && k <= old(decoder).rest().len() && final(decoder).rest() == old(decoder).rest().skip(k as int),
+                None => res is Err,
+            },
+    @start
+        let ghost s0 = decoder.rest();
+        let ghost mut kk: nat = 0;
+        let ghost mut items = Seq::<(ClientID, Seq<Ent<()>>)>::empty();
+    @after 1 `stmt:let client_len`
+        let ghost s1 = decoder.rest();
+        proof {
+            lemma_read_progress::<u32>(s0, s1, Ok::<u32, Error>(client_len));
+            lemma_suffix_refl(s1);
+            lemma_dec_list_start(idset_item(), s1, client_len as nat);
+            assert(s1.skip(0) =~= s1);
+        }
+    @loop 1
+        invariant
+            s0 == old(decoder).rest(),
+            decoder.wf(),
+            suffix_of(s0, s1),
+            suffix_of(s1, decoder.rest()),
+            s1.len() < s0.len(),
+            0 <= i <= client_len,
+            items.len() == i,
+            set@ == map_of(items),
+            ranges_ordered(set@),
+            decoder.rest().len() + 2 * i <= s1.len(),
+            D::v1() ==> dec_u32(s0) is Some && dec_u32(s0)->Some_0.0 == client_len && s1 == s0.skip(dec_u32(s0)->Some_0.1 as int),
+            D::v1() ==> kk <= s1.len() && decoder.rest() == s1.skip(kk as int)
+                && dec_list(idset_item(), s1, client_len as nat) == list_join(items, kk, dec_list(idset_item(), decoder.rest(), (client_len - i) as nat)),
+        decreases client_len - i,
+    @after 1 `stmt:call reset_ds_cur_val`
+        let ghost sa = decoder.rest();
+        proof {
+            lemma_suffix_step(s0, s1, sa);
+            lemma_suffix_trans(s0, sa);
+            lemma_dec_u64_bounded(sa);
+            if D::v1() {
+                lemma_idset_item_bounded();
+                lemma_dec_list_step(idset_item(), 2, s1, client_len as nat, items, kk, (client_len - i) as nat);
+            }
+        }
+    @after 1 `stmt:let client`
+        let ghost sb = decoder.rest();
+        proof {
+            lemma_read_progress::<u64>(sa, sb, Ok::<u64, Error>(client));
+            lemma_suffix_step(s0, sa, sb);
+            lemma_suffix_step(s1, sa, sb);
+            lemma_suffix_trans(s0, sb);
+            if D::v1() {
+                lemma_skip_skip_all(sa, dec_u64(sa)->Some_0.1);
+            }
+        }
+    @before 1 `stmt:call clients_mut`
+        let ghost raw0 = set.0.raw();
+        proof {
+            axiom_client_id_ord_key_model();
+            set.0.lemma_view();
+        }
+    @after 1 `stmt:call clients_mut`
+        proof {
+            set.0.lemma_view();
+            let cid = ClientID(client);
+            lemma_lift_insert(raw0, cid, range);
+            lemma_map_of_push(items, cid, range@);
+            items = items.push((cid, range@));
+            lemma_suffix_step(s1, sb, decoder.rest());
+            if D::v1() {
+                assert(dec_idset_item(sa) == idset_item()(sa));
+                kk = kk + dec_idset_item(sa)->Some_0.1;
+            }
+        }
+    @before 1 `stmt:call Ok`
+        proof {
+            lemma_suffix_step(s0, s1, decoder.rest());
+            lemma_map_of_len(items);
+            if D::v1() {
+                let k = dec_u32(s0)->Some_0.1;
+                lemma_dec_u32_bounded(s0);
+                assert(s0.skip(k as int).skip(kk as int) =~= s0.skip((k + kk) as int));
+                lemma_dec_list_done(idset_item(), decoder.rest(), items, kk);
             }
         }
     @*/
